@@ -283,6 +283,20 @@ def r5(ctx):
     ctx.floor(R, 2)
 
 
+def r6(ctx):
+    R = "C20-R6"
+    ctx.rule(R, "every corrupted read of a host step reaches the barriers: the corruption hook (thread-local turmoil_fs::CURRENT_CORRUPTION, installed by "
+                "turmoil_fs::enter for the step and restored by FsEnterGuard::drop) is only *read* by fire_corruption - an accessor that takes or "
+                "replaces it leaves later corruption events of the same step without a barrier")
+    if ctx.config != "all":
+        ctx.info(R, "feature-off", "", "unstable-fs not enabled together with unstable-barriers in this configuration")
+        return
+    from . import C01
+    k = C01.scoped_cell_writers(ctx, R, keys={"turmoil_fs::CURRENT_CORRUPTION"})
+    ctx.inst(R, "hook:accessors-found", k >= 2, "", f"{k} accessors of the corruption hook analysed" if k >= 2 else "the corruption hook's accessors (enter, fire_corruption) were not found: re-derive")
+    ctx.floor(R, 3)
+
+
 def run(ctx):
     global ctx_w
     ctx_w = ctx.w
@@ -294,3 +308,4 @@ def run(ctx):
     r3(ctx)
     r4(ctx)
     r5(ctx)
+    r6(ctx)
